@@ -848,3 +848,58 @@ Theorem Blocks_total_document_accepts_add_child_kinds :
   forallb (V.Gen.Nodes.can_contain KDocument) BlocksTotal4Spine.add_child_kinds = true.
 Proof. exact BlocksTotal4Spine.document_accepts_add_child_kinds. Qed.
 Print Assumptions Blocks_total_document_accepts_add_child_kinds.
+
+(* ---- totality, fifth round (Proofs/BlocksTotal5*.v).
+   Step 1 (Proofs/BlocksTotal5Fuel.v, FuelDesc.v, Adv.v, Loop.v): FUEL.  The last loop without a bound,
+   open_new_blocks_loop (fuel 2 |L| + 8), is bounded: every iteration that goes on moved the offset forward by at least
+   one byte (lower bounds of the scanners, Proofs/BlocksTotal4Scan.v) or opened an html block without consuming
+   anything, after which the loop stops at once (Blocks_total_partial_open_new_blocks_step_advances); the table case
+   Some((container, false, _)) never goes on, its container is a paragraph.  parse_desc_list_details /
+   handle_description_list and the other handlers are bounded under the tree invariant W.  Three walks of the same
+   computation are combined (tree walk `safe`, cursor walk `sg (but cur_sites)`, fuel walk `sg (every site) false`).
+   RESULT, for EVERY input byte string (valid UTF-8 or not) and EVERY option set: parse_blocks never answers OutOfFuel
+   (Blocks_total_partial_no_fuel); so `parse_blocks o x` is Ok or a Panic at a site outside the 76 excluded ones. *)
+From V Require Proofs.BlocksTotal5Fuel Proofs.BlocksTotal5FuelDesc Proofs.BlocksTotal5Adv Proofs.BlocksTotal5Loop.
+
+Theorem Blocks_total_partial_no_fuel : forall o x, parse_blocks o x <> OutOfFuel.
+Proof. exact BlocksTotal5Loop.parse_blocks_no_fuel. Qed.
+Print Assumptions Blocks_total_partial_no_fuel.
+
+Theorem Blocks_total_partial_process_line_no_fuel : forall o st line0,
+  lf_terminated (norm_line line0) -> BlocksTotal2Walk.LI o st -> process_line o st line0 <> OutOfFuel.
+Proof. exact BlocksTotal5Loop.process_line_no_fuel. Qed.
+Print Assumptions Blocks_total_partial_process_line_no_fuel.
+
+Theorem Blocks_total_partial_open_new_blocks_no_fuel : forall o line st c am,
+  lf_terminated line -> BlocksTotal2Tree.W o st -> BlocksTotal2Tree.has st c -> BlocksTotal2Tree.has st (ps_current st) ->
+  BlocksTotal4Walk.C1 line st -> open_new_blocks o st c line am <> OutOfFuel.
+Proof. exact BlocksTotal5Loop.open_new_blocks_no_fuel. Qed.
+Print Assumptions Blocks_total_partial_open_new_blocks_no_fuel.
+
+(* one iteration of open_new_blocks from a state with the handlers' invariant J and the cursor inside the line: it
+   does not run out of fuel, and when it goes on the offset has moved forward, or has not moved back and the container
+   handed on is a code / html block *)
+Theorem Blocks_total_partial_open_new_blocks_step_advances : forall o lmc cur0 line st c am ml d go c1 s1,
+  lf_terminated line -> BlocksTotal2Walk.J o lmc cur0 st c -> BlocksTotal4Walk.C1 line st ->
+  open_new_blocks_step o st c line am ml d <> OutOfFuel /\
+  (open_new_blocks_step o st c line am ml d = Ok (go, c1, s1) -> go = true ->
+   c_offset (ps_cur st) < c_offset (ps_cur s1)
+   \/ (c_offset (ps_cur st) <= c_offset (ps_cur s1) /\ forall n, get s1 c1 = Ok n -> is_code_or_html n = true)).
+Proof.
+  intros o lmc cur0 line st c am ml d go c1 s1 LN Jc C.
+  pose proof (BlocksTotal5Loop.step_adv o lmc cur0 line LN st c am ml d Jc C) as S. split.
+  - eapply BlocksTotal4Safe.sg_no_fuel. exact S.
+  - intros E. rewrite E in S. exact S.
+Qed.
+Print Assumptions Blocks_total_partial_open_new_blocks_step_advances.
+
+(* the description-list handler under the invariant J of the handlers *)
+Theorem Blocks_total_partial_fuel_description_list : forall o lmc cur0 st c line ind matched,
+  BlocksTotal2Walk.J o lmc cur0 st c ->
+  parse_desc_list_details o st c matched <> OutOfFuel /\ handle_description_list o st c line ind <> OutOfFuel.
+Proof.
+  intros o lmc cur0 st c line ind matched Jc. split; apply BlocksTotal4Fuel.nf_ne.
+  - eapply BlocksTotal5FuelDesc.nf_parse_desc_list_details; exact Jc.
+  - eapply BlocksTotal5FuelDesc.nf_handle_description_list; exact Jc.
+Qed.
+Print Assumptions Blocks_total_partial_fuel_description_list.
